@@ -285,8 +285,16 @@ def run(ctx):
                 t = B.blocks[r['bb']]['t']
                 pr = [x for x in receiver_root(B, t['args'][0])[1] if isinstance(x, str)] if t['k'] == 'call' and t['args'] else []
                 aty = str(t.get('aty'))
+                atom_ord = None
+                if 'erltf::types::Atom' in aty:
+                    # delegated to Atom's own order: fine when that order compares the text
+                    AOB = P.B('<erltf::types::Atom as core::cmp::Ord>::cmp')
+                    if AOB is not None:
+                        atom_ord = any('name' in [x for x in receiver_root(AOB, t2['args'][0])[1] if isinstance(x, str)] for b2, t2 in AOB.calls() if t2['args'])
                 if 'name' in pr or 'str' in aty or 'Arc<' in aty or 'Cow<' in aty:
                     ctx.ok('C12.5-recipes', inst, 'atoms are compared by their text')
+                elif atom_ord:
+                    ctx.ok('C12.5-recipes', inst, 'atoms are compared through Atom\'s own Ord, which compares the text')
                 else:
                     ctx.bad('C12.5-recipes', inst, 'atom arm does not compare the names: %s' % pr, ctx.where(B, r['bb']), key='SHAPE:%s:Atom:by-name' % cmpname)
 
